@@ -14,6 +14,8 @@
 package main
 
 import (
+	"bufio"
+	"bytes"
 	"context"
 	"fmt"
 	"io"
@@ -21,7 +23,10 @@ import (
 	"log/slog"
 	"net/http"
 	"net/http/httptest"
+	"os"
+	"os/exec"
 	"strconv"
+	"strings"
 	"sync"
 	"sync/atomic"
 	"time"
@@ -47,6 +52,21 @@ type rCase struct {
 	Global int      `json:"global"` // how many of the handlers are Use()d; app: how many are WithBefore
 	After  int      `json:"after"`  // app: how many trailing handlers are WithAfter
 	Chain  []cx.Beh `json:"chain"`  // handlers in chain order
+	// configuration the model says is irrelevant to containment:
+	// RecH: router world — recovery.WithHandler(h), h writes the 500 document itself (status + Write,
+	// no render helper) and, like the documented examples, does not touch the chain;
+	// Fmt: app world — app.WithErrorFormatter(RFC 9457 with a StatusResolver that knows the error
+	// values handlers panic with)
+	RecH bool `json:"rech,omitempty"`
+	Fmt  bool `json:"fmt,omitempty"`
+}
+
+// recoveryHandler is a custom response handler for recovery.WithHandler: the same document as the
+// default one, written without c.JSON.
+func recoveryHandler(c *router.Context, _ any) {
+	c.Header("Content-Type", "application/json; charset=utf-8")
+	c.Status(http.StatusInternalServerError)
+	_, _ = c.Response.Write([]byte(`{"code":"INTERNAL_ERROR","error":"Internal server error"}` + "\n"))
 }
 
 const okHid = 99
@@ -58,7 +78,7 @@ func buildR(c rCase) (*cx.World, error) {
 		ids[i] = b.H
 	}
 	var script []cx.Op
-	bo := cx.BuildOpts{Check: c.Check, Compiled: c.Comp, Obs: c.Obs && c.App, Defaults: true}
+	bo := cx.BuildOpts{Check: c.Check, Compiled: c.Comp, Obs: c.Obs && c.App, Defaults: true, Fmt: c.Fmt && c.App}
 	if c.App {
 		// app.New installs recovery itself (default middleware)
 		if c.Ctor > 0 {
@@ -75,7 +95,11 @@ func buildR(c rCase) (*cx.World, error) {
 		script = append(script, cx.Op{K: "AR", OK: "a", Seg: 1, Hs: rest[:nb], H: rest[nb], Hs2: rest[nb+1:]})
 		script = append(script, cx.Op{K: "AR", OK: "a", Seg: 2, H: okHid})
 	} else {
-		bo.Pre = []router.HandlerFunc{recovery.New(recovery.WithoutLogging())}
+		ropts := []recovery.Option{recovery.WithoutLogging()}
+		if c.RecH {
+			ropts = append(ropts, recovery.WithHandler(recoveryHandler))
+		}
+		bo.Pre = []router.HandlerFunc{recovery.New(ropts...)}
 		if c.Wrap {
 			bo.Pre = append(bo.Pre, timeout.New(timeout.WithDuration(time.Hour), timeout.WithoutLogging()))
 		}
@@ -89,10 +113,14 @@ func buildR(c rCase) (*cx.World, error) {
 }
 
 func emitR(id string, c rCase, st *hx.Stats) string {
+	if skipped() {
+		return ""
+	}
 	l := hx.NewLine(id).Tok("R").Bool(c.Check).Bool(c.Comp).Bool(c.Obs && c.App).Bool(c.Wire).Bool(c.Wrap).Nat(c.Global)
 	cx.EncBeh(l, c.Chain)
 	in := l.String()
 	l.Sep()
+	announce(l.String() + " 0 0 0 1 9 2 0 0 0 1 9 0 0 0 1 9" + hx.Comment(c))
 	w, err := buildR(c)
 	if err != nil {
 		return fmt.Sprintf("# %s: cannot build: %v", id, err)
@@ -145,6 +173,12 @@ func emitR(id string, c rCase, st *hx.Stats) string {
 		}
 		if c.Ctor > 0 {
 			st.Count("R_app_WithMiddleware_at_construction")
+		}
+		if c.RecH && !c.App {
+			st.Count("R_custom_recovery_handler")
+		}
+		if c.Fmt && c.App {
+			st.Count("R_app_error_formatter_with_status_resolver")
 		}
 		if res.Escaped >= 0 {
 			st.Count("R_panic_escaped")
@@ -206,7 +240,7 @@ func p(v int) cx.Act { return cx.Act{K: "P", V: v} }
 
 // panicSite draws one of the panic sites of the quantifier.
 func panicSite(r *hx.Rand, st *hx.Stats) []cx.Act {
-	v := r.Intn(cx.NPanicValues)
+	v := r.Intn(cx.NPanicValues + 1) // the last one is cx.WriterPanic
 	name, acts := "", []cx.Act(nil)
 	switch r.Intn(8) {
 	case 0:
@@ -237,8 +271,10 @@ func genR(r *hx.Rand, st *hx.Stats) rCase {
 	c := rCase{Kind: "R", Check: !r.Chance(1, 5), Comp: r.Chance(1, 3), App: r.Chance(2, 5)}
 	if !c.App {
 		c.Wrap = r.Chance(1, 4)
+		c.RecH = r.Chance(1, 3)
 	} else {
 		c.Obs = r.Chance(1, 2)
+		c.Fmt = r.Chance(1, 3)
 	}
 	n := r.Range(1, 5)
 	c.Global = r.Intn(n) // at least one route handler
@@ -551,6 +587,9 @@ func hasAct(prog []string, x string) bool {
 }
 
 func emitT(id string, c tCase, st *hx.Stats) string {
+	if skipped() {
+		return ""
+	}
 	if raceBuild && hasAct(c.Prog, "X") {
 		if st != nil {
 			st.Count("T_skipped_under_race_K10b")
@@ -565,6 +604,7 @@ func emitT(id string, c tCase, st *hx.Stats) string {
 	}
 	in := l.String()
 	l.Sep()
+	announce(l.String() + " 0 0 1 9 1 1 0" + hx.Comment(c))
 	o := runT(c)
 	if o.Discard != "" {
 		if st != nil {
@@ -761,13 +801,113 @@ func fixedT() []tCase {
 	}
 }
 
+// ---------------------------------------------------------------- supervisor
+//
+// "never terminates the process" is an observation of its own: a panic in a goroutine nobody
+// recovers in cannot be caught from inside. The harness therefore runs its cases in a child process;
+// before each case the child announces the line that is to be printed should the process die in it
+// (no response, escaped = 9 "the process terminated"). When the child dies the parent prints that
+// line and starts a new child that skips the cases already done.
+
+const pendingPrefix = "#pending "
+
+var (
+	announceW *bufio.Writer
+	skipCases int
+	caseNo    int
+)
+
+// skipped reports whether the case about to be emitted was already done by an earlier child.
+func skipped() bool {
+	caseNo++
+	return caseNo <= skipCases
+}
+
+func announce(died string) {
+	if announceW != nil {
+		fmt.Fprintln(announceW, pendingPrefix+strconv.Itoa(caseNo)+" "+died)
+		announceW.Flush()
+	}
+}
+
+const maxDeaths = 6
+
+func supervise() {
+	exe, err := os.Executable()
+	if err != nil {
+		fmt.Fprintln(os.Stderr, "c10: cannot find own executable:", err)
+		os.Exit(3)
+	}
+	stdin, _ := io.ReadAll(os.Stdin)
+	w := hx.Out()
+	defer w.Flush()
+	done := 0
+	for deaths := 0; ; {
+		cmd := exec.Command(exe, os.Args[1:]...)
+		cmd.Env = append(os.Environ(), "VERIF_C10_CHILD=1", "VERIF_C10_SKIP="+strconv.Itoa(done))
+		cmd.Stdin = bytes.NewReader(stdin)
+		var stderr bytes.Buffer
+		cmd.Stderr = &stderr
+		pipe, err := cmd.StdoutPipe()
+		if err != nil || cmd.Start() != nil {
+			fmt.Fprintln(os.Stderr, "c10: cannot start the child process")
+			os.Exit(3)
+		}
+		pending := ""
+		sc := bufio.NewScanner(pipe)
+		sc.Buffer(make([]byte, 1<<20), 1<<26)
+		for sc.Scan() {
+			line := sc.Text()
+			if strings.HasPrefix(line, pendingPrefix) {
+				no, rest, _ := strings.Cut(line[len(pendingPrefix):], " ")
+				pending = rest
+				done, _ = strconv.Atoi(no)
+				continue
+			}
+			pending = ""
+			fmt.Fprintln(w, line)
+		}
+		err = cmd.Wait()
+		if err == nil {
+			return
+		}
+		if pending == "" { // not inside a case: nothing to attribute the death to
+			w.Flush()
+			os.Stderr.Write(stderr.Bytes())
+			fmt.Fprintln(os.Stderr, "c10: child process failed outside a case:", err)
+			os.Exit(2)
+		}
+		deaths++
+		msg := stderr.String()
+		if i := strings.Index(msg, "\n\n"); i > 0 {
+			msg = msg[:i]
+		}
+		fmt.Fprintln(w, "# the process died in the next case ("+err.Error()+"): "+strings.ReplaceAll(strings.TrimSpace(msg), "\n", " | "))
+		fmt.Fprintln(w, pending)
+		if deaths >= maxDeaths {
+			fmt.Fprintf(w, "# %d process deaths: giving up on the remaining cases\n", deaths)
+			return
+		}
+	}
+}
+
 func main() {
 	// the app's default recovery logs through slog.Default(): keep stderr quiet
 	slog.SetDefault(slog.New(slog.NewTextHandler(io.Discard, nil)))
+	if os.Getenv("VERIF_C10_CHILD") == "" {
+		supervise()
+		return
+	}
+	skipCases, _ = strconv.Atoi(os.Getenv("VERIF_C10_SKIP"))
 	args := hx.ParseArgs()
 	w := hx.Out()
 	defer w.Flush()
-	out := func(s string) { fmt.Fprintln(w, s) }
+	announceW = w
+	out := func(s string) {
+		if s != "" {
+			fmt.Fprintln(w, s)
+		}
+	}
 	switch args.Cmd {
 	case "gen":
 		r := hx.NewRand(cx.MixSeed(args.Seed))
